@@ -1442,7 +1442,13 @@ def discharge(ob, timeout_ms=10000):
             return "proved", "cvc5" + ("".join(opts)), time.time() - t0, None
         if r == "sat":
             return "refuted", "cvc5", time.time() - t0, None
-    # last resort, sized for a fully loaded machine (these queries need 2-20 s on an idle one): enumerative instantiation with the long budget
+    # last resort, sized for a fully loaded machine (these queries need 0.1-20 s on an idle one): z3 again with six times the budget, then enumerative
+    # instantiation with the long budget
+    r, model = smt.z3_check(s, 6 * timeout_ms / 1000.0, model=True)
+    if r == "unsat":
+        return "proved", "z3(long budget)", time.time() - t0, None
+    if r == "sat":
+        return "refuted", "z3", time.time() - t0, model
     r, _ = smt.cvc5_check(s, 30 * timeout_ms / 1000.0, ["--enum-inst"])
     if r == "unsat":
         return "proved", "cvc5--enum-inst(long budget)", time.time() - t0, None
